@@ -46,6 +46,8 @@ def main():
         for name in ("patch.diff", "demo.py", "NOTES.md"):
             shutil.copy(os.path.join(args.src, name), os.path.join(dest, name))
     patch = os.path.join(dest, "patch.diff")
+    if args.only_check and os.path.exists(os.path.join(dest, "patch_current.diff")):
+        patch = os.path.join(dest, "patch_current.diff")  # carried over to the current HEAD (see meta.json)
     scratch = tempfile.mkdtemp(prefix="seedeval-", dir="/var/tmp")
     os.rmdir(scratch)
     r = sh(["git", "-C", "/repo", "worktree", "add", "--detach", scratch, "HEAD", "-q"])
